@@ -71,6 +71,16 @@ type FuncContract struct {
 	Template   bool          // verif:methods template, instantiated for every matching method
 	Taint      bool          // generate diagnostic-content (taint) obligations
 	AssumePre  bool          // preconditions of callees are assumed, not proved (they are another unit's concern)
+	CallSites  []CallSiteSpec // assertions checked at every call of a named callee inside the function
+}
+
+// CallSiteSpec is "callsite <callee> <label>: expr": an assertion proved at every call (static,
+// method or interface call) whose callee's name is Callee (the last component: function or method name). The expression may name the call's
+// arguments (arg0 is the receiver of a method call) and the function's parameters and locals; a
+// local denotes the value it has at the call (the nearest definition that dominates the call).
+type CallSiteSpec struct {
+	Callee string
+	Clause Clause
 }
 
 func (c *FuncContract) FullName() string {
@@ -387,6 +397,16 @@ func (cs *ContractSet) addClause(c *FuncContract, text, where string) error {
 			return err
 		}
 		c.Ensures = append(c.Ensures, cl)
+	case "callsite":
+		f2 := strings.Fields(rest)
+		if len(f2) < 2 {
+			return fmt.Errorf("%s: callsite <callee> <label>: <expr>", where)
+		}
+		cl, err := mk(strings.TrimSpace(strings.TrimPrefix(rest, f2[0])), len(c.CallSites), "callsite")
+		if err != nil {
+			return err
+		}
+		c.CallSites = append(c.CallSites, CallSiteSpec{Callee: f2[0], Clause: cl})
 	case "assumes":
 		// a postcondition that callers may use but that is NOT verified against the body (a
 		// definitional clause over an uninterpreted spec function); listed in the evidence
